@@ -292,6 +292,15 @@ def units(tier, seed):
     # the sequence counter wraps inside the burst (2-bit sequence space
     # through rig's own seqs(mask)): numbers still outstanding are skipped
     add(6, 3, 2, 0, (), split=6, wit=("ok",), seq_mask=3, untimed=True)
+    # a read of two blocks in flight together, one datagram lost or
+    # duplicated: each block's reply must land in that block's place
+    # (C07's harness; the callbacks of SCPConnection.read are the subject)
+    from harness import c07
+    us.append(Unit("read of two blocks, window 2, one fault (C07's harness)",
+                   c07.h_rw, dict(op="read", lengths=(5,), bufs=(4,),
+                                  windows=(2,), faults=1,
+                                  kinds=("lose_req", "dup")), split=6,
+                   witnesses=("read",), path_timeout_s=120))
     us.append(Unit("two reads, one connection, two buffer sizes",
                    h_two_buffers, dict(sizes=((64, 128), (120, 128),
                                               (128, 64), (24, 32))),
